@@ -15,7 +15,7 @@ theorem killerIndep' : KillerIndep :=
 set_option maxRecDepth 100000 in
 theorem start_eval : evaluate demoBlend startPosition 0 = .ok 0 := okIs_eq (by decide +kernel)
 
-theorem demoBlend_bounded : BlendBounded demoBlend pstMaxAbs := fun _ _ _ h _ => h
+theorem demoBlend_bounded : BlendBounded demoBlend pstMaxAbs := blendBounded_mid pstMaxAbs
 
 /-! #### the mated root (fool's mate) as a one-point closed set satisfying all hypotheses of the mate theorems -/
 
